@@ -58,10 +58,23 @@ JudgeWalk(X, q, w, i) ==
   /\ "X01" \in Which => P_WalkComplete(X, q, w) \/ QFail("WalkComplete", i, cls)
   /\ "CONF" \in Which => WalkChained(q, w) \/ QDrift(i, "walk")
 
+\* a walk while the chain moves: [q, states, segs (page i: si = index of the state it was answered in, pg, r), acts, truncated]
+JudgeWW(t) ==
+  LET q  == t.q
+      n  == Len(t.segs)
+      XS == FoldLeft(LAMBDA acc, j : Append(acc, MkX(t.states[j].S, t.states[j].D)), <<>>, [j \in 1..Len(t.states) |-> j])
+      xs == [i \in 1..n |-> XS[t.segs[i].si]]
+      w  == [pages |-> [i \in 1..n |-> [pg |-> t.segs[i].pg, r |-> t.segs[i].r]], truncated |-> t.truncated]
+  IN
+  /\ \A i \in 1..n : JudgePage(xs[i], q, t.segs[i].pg, t.segs[i].r, i)
+  /\ "X01" \in Which => P_WalkStable(q, xs, w) \/ QFail("WalkStable", 0, "other")
+  /\ "CONF" \in Which => WalkChained(q, w) \/ QDrift(0, "wwalk")
+
 Judge ==
   l = 1 \/
-  LET t == Trace[l]
-      X == MkX(t.S, t.D)
+  LET t == Trace[l] IN
+  IF "ww" \in DOMAIN t THEN JudgeWW(t) ELSE
+  LET X == MkX(t.S, t.D)
   IN \A i \in 1..Len(t.qs) :
        LET q == t.qs[i].q  r == t.qs[i].r IN
        CASE q.op = "list" -> JudgePage(X, q, q.pg, r, i)
